@@ -66,6 +66,7 @@ static int vk_hostile(vc_rng *r,unsigned char *b,int cap,int sd){
   if(!vbr&&M>0&&tot>budget){ for(int i=0;i<M;i++) sizes[i]=0; tot=0; }
   if(vbr) for(int i=0;i<M-1;i++) pos+=vk_put_len(b+pos,sizes[i]);
   if(sd&&M>0) pos+=vk_put_len(b+pos,sizes[M-1]);
+  int hdr_end=pos;
   { /* payload styles: the range decoder maps byte extremes to symbol extremes, so low-entropy payloads (runs of
        0xFF / 0x00 after a short random prefix) reach extreme energies, pulse counts, gains and lags */
     int style=vc_below(r,8); static const unsigned char alpha[6]={0x00,0xFF,0x80,0x7F,0x01,0xFE}; int run=0; unsigned char rv=0; int prefix=vc_range(r,0,10);
@@ -77,6 +78,8 @@ static int vk_hostile(vc_rng *r,unsigned char *b,int cap,int sd){
   /* SILK/hybrid payloads: make first bytes look like plausible headers sometimes */
   for(int i=0;i<pad&&pos<cap;i++) b[pos++]=vc_chance(r,1,2)?0:vc_u32(r);
   if(vc_chance(r,1,12)&&pos>1) pos-=vc_below(r,pos<6?pos:6);
+  /* cut inside the header, the last byte left looking like the first byte of a two-byte length / a padding-length continuation */
+  if(vc_chance(r,1,12)&&hdr_end>1){ int cut=2+(int)vc_below(r,hdr_end-1); if(cut<pos) pos=cut; if(vc_chance(r,2,3)) b[pos-1]=(unsigned char)(252+vc_below(r,4)); }
   if(vc_chance(r,1,20)&&pos<cap-4) pos+=vc_below(r,4);
   return pos;
 }
